@@ -27,7 +27,7 @@ from vf.props import c05
 
 ID = 'C10'
 LEVEL = 'fault_enumeration'
-ROLES = ['forward', 'tunnel', 'web', 'static', 'reverse', 'bad-request', 'not-found', 'auth-failed']
+ROLES = ['forward', 'tunnel', 'web', 'static', 'reverse', 'reverse-keepalive', 'nonutf8-target', 'close-hook-raises', 'bad-request', 'not-found', 'auth-failed']
 MODES = ['local', 'remote', 'threaded']
 RULE = ('enumeration: for each (role, mode) a fault-free dry run counts the proxy socket calls and the peer actions of the '
         'connection; every (call ordinal x errno), (action index x peer fault), connect fault and the idle-timeout ending is run; '
@@ -48,7 +48,7 @@ def flags_for(mode: str, auth: bool) -> Any:
         argv = {'local': ['--threadless'], 'remote': ['--threadless', '--local-executor', '0'], 'threaded': ['--threaded']}[mode]
         argv += ['--enable-web-server', '--enable-static-server', '--static-server-dir', c07.static_dir(), '--enable-reverse-proxy',
                  '--timeout', '5']
-        opts: Dict[str, Any] = {'plugins': [c07.route_plugin(), c04._reverse_plugin()]}
+        opts: Dict[str, Any] = {'plugins': [c07.route_plugin(), c04._reverse_plugin(), c05._F['explode']]}
         if auth:
             opts['basic_auth'] = 'user:pass'
         _F[key] = K.make_flags(argv, **opts)
@@ -58,6 +58,15 @@ def flags_for(mode: str, auth: bool) -> Any:
 def conversation(role: str, i: int = 0) -> Dict[str, Any]:
     if role in ('forward', 'tunnel', 'web', 'reverse'):
         return c05.conversation(role, 'canary')
+    if role == 'reverse-keepalive':
+        one = c05.conversation('reverse', 'canary')['requests'][0]
+        return {'requests': [one, one.replace(b'/ra/canary', b'/rb/second'), one], 'tunnel': None}
+    if role == 'close-hook-raises':
+        # a user plugin raises from its on_upstream_connection_close hook: Work.shutdown() raises
+        return c05.conversation('forward', 'canary', explode='on_upstream_connection_close')
+    if role == 'nonutf8-target':
+        # served like any other request, but the access log written at teardown cannot decode it: shutdown() raises
+        return {'requests': [b'GET http://canary.test/\xff\xfe?q=\xc3\x28 HTTP/1.1\r\nHost: canary.test\r\n\r\n'], 'tunnel': None}
     if role == 'static':
         from vf.props import c07
         path, _ = c07.static_file(3000, 1)
@@ -272,7 +281,12 @@ def shards(tier: str) -> List[Dict[str, Any]]:
     out = []
     for mode in MODES:
         for role in ROLES:
-            if q and mode != 'local' and role in ('not-found', 'bad-request'):
+            if q and mode != 'local' and role in ('not-found', 'bad-request', 'static'):
+                continue
+            if mode == 'threaded' and role == 'close-hook-raises':
+                # a user plugin raising from a close hook is not one of the endings C10 lists (it is C05's business); in
+                # the executors the work is dropped and its sockets are finalised, which is what this role pins; in the
+                # threaded driver the harness keeps the handler object alive, so nothing could be concluded
                 continue
             out.append({'name': 'enum-%s-%s' % (mode, role), 'kind': 'enum', 'mode': mode, 'role': role})
     for mode in MODES:
@@ -300,7 +314,7 @@ def run_shard(spec: Dict[str, Any], seed: int, acc: Any) -> None:
             for k_ in range(nacts):
                 for pf in c05.PEER_FAULTS:
                     cases.append(dict(base, fault={'type': 'peer', 'k': k_, 'what': pf}))
-            if spec['role'] in ('forward', 'tunnel', 'reverse'):
+            if spec['role'] in ('forward', 'tunnel', 'reverse', 'reverse-keepalive', 'nonutf8-target', 'close-hook-raises'):
                 for cf in c05.CONNECT_FAULTS:
                     cases.append(dict(base, fault={'type': 'connect', 'what': cf}))
             cases.append(dict(base, fault={'type': 'idle'}))
@@ -318,7 +332,7 @@ def run_shard(spec: Dict[str, Any], seed: int, acc: Any) -> None:
                                         % (spec['mode'], spec['role'], ncalls, len(c05.ERRNOS), nacts, len(c05.PEER_FAULTS)))
             return
         if spec['kind'] == 'repeat':
-            roles = [r for r in ROLES if r != 'auth-failed']
+            roles = [r for r in ROLES if r not in ('auth-failed',) and not (spec['mode'] == 'threaded' and r == 'close-hook-raises')]
             seq = [roles[(i * 5 + i // 7) % len(roles)] for i in range(spec['n'])]
             c = {'mode': spec['mode'], 'roles': seq}
             vs, info = evaluate(c)
@@ -331,7 +345,7 @@ def run_shard(spec: Dict[str, Any], seed: int, acc: Any) -> None:
         @st.composite
         def strat(draw: Any) -> Dict[str, Any]:
             n = draw(st.integers(1, 4))
-            roles = [draw(st.sampled_from([r for r in ROLES if r != 'auth-failed'])) for _ in range(n)]
+            roles = [draw(st.sampled_from([r for r in ROLES if r not in ('auth-failed', 'close-hook-raises')])) for _ in range(n)]
             ft = draw(st.sampled_from(['errno', 'errno', 'peer', 'connect', 'idle', 'none']))
             conn = draw(st.integers(0, n - 1))
             fault: Optional[Dict[str, Any]] = None
